@@ -262,8 +262,21 @@ struct tree_sys
       r.push_back(op{COPY_ASSIGN, n, n, 0, 0}); // self assignment
       for (int k2 = 0; k2 < static_cast<int>(nodes.size()); ++k2)
       {
-        if (k2 == n || related(nodes[static_cast<std::size_t>(n)], nodes[static_cast<std::size_t>(k2)]))
+        if (k2 == n)
           continue;
+        if (related(nodes[static_cast<std::size_t>(n)], nodes[static_cast<std::size_t>(k2)]))
+        {
+          // assignment *from a strict descendant to its ancestor* is well defined (the source is read
+          // before the target's old children die): a = a.front(), a = std::move(a.front().back()) ...
+          // The other direction (ancestor into its own descendant) stays a precondition.
+          minfo const &tgt = nodes[static_cast<std::size_t>(n)], &src = nodes[static_cast<std::size_t>(k2)];
+          if (src.path.size() > tgt.path.size() && tot - count(nd) + count(*src.r) <= static_cast<std::size_t>(NODE_CAP))
+          {
+            r.push_back(op{COPY_ASSIGN, n, k2, 1, 0});
+            r.push_back(op{MOVE_ASSIGN, n, k2, 1, 0});
+          }
+          continue;
+        }
         Ref const &src = *nodes[static_cast<std::size_t>(k2)].r;
         if (n < k2)
         {
@@ -479,6 +492,12 @@ struct tree_sys
       located b = locate(o.b);
       t = std::move(*b.t);
       Ref taken = *b.r;
+      if (o.c == 1)
+      {
+        // source was a descendant of the target: it died with the target's old children
+        r = taken;
+        break;
+      }
       b.r->c.clear();
       r = taken;
       VRT_CHECK(b.t->empty(), "tree:move_assign:source_children", "moved-from tree still has %zu children", b.t->size());
